@@ -37,6 +37,20 @@ pub struct VerifSnapshot {
 }
 
 impl<const N: usize> Sodg<N> {
+    /// Persistence of one slot: 0 = Empty, 1 = Stored (unread), 2 = Taken.
+    ///
+    /// # Panics
+    ///
+    /// If `v` is not below the capacity.
+    #[must_use]
+    pub fn verif_persistence(&self, v: usize) -> u8 {
+        match self.vertices.get(v).unwrap().persistence {
+            Persistence::Empty => 0,
+            Persistence::Stored => 1,
+            Persistence::Taken => 2,
+        }
+    }
+
     /// Take a snapshot of the internal state.
     #[must_use]
     pub fn verif_snapshot(&self) -> VerifSnapshot {
